@@ -11,5 +11,5 @@ func init() {
 
 func c07Gen(tier string, seed uint64, out *bufio.Writer) {
 	p := txProfile{maxTx: 3, maxSteps: 5, failBias: 35, listeners: 3, swallow: true, batch: 8}
-	txGenCommon(tier, seed, out, 300, 2, 450, 7000, p, false)
+	txGenCommon(tier, seed, out, 220, 2, 380, 7000, p, false)
 }
